@@ -167,6 +167,11 @@ def are_different(left, right):
     if left is None:
         return False
 
+    if isinstance(left, numbers.Integral):
+        # Integers are compared exactly: the relative tolerance of isclose
+        # would make e.g. residue numbers 100000 and 100001 equal.
+        return left != right
+
     if isinstance(left, numbers.Number):
         try:
             return not np.isclose(left, right, equal_nan=True)
